@@ -154,7 +154,12 @@ def main(argv=None):
         src_sha.update(sha); t_build += time.time() - tb0; so_of[part] = so
 
         if replay_path:
-            ok, text = native_replay(part, so, rec['obligation'], rec['cex'])
+            rob = rec['obligation']
+            if rob is not None:          # take the obligation as the harness defines it (JSON turned its tuples into lists)
+                for tr in ('quick', 'thorough'):
+                    hit = [o for o in P.obligations(tr, seed) if o['name'] == rob.get('name')]
+                    if hit: rob = hit[0]; break
+            ok, text = native_replay(part, so, rob, rec['cex'])
             print('replay %s: reproduced=%s\n%s' % (replay_path, ok, text)); return 1 if ok else 0
 
         obs = P.obligations(tier, seed)
